@@ -50,10 +50,10 @@ func runC20(p *Prog, r *Report) {
 		}})
 	r.Explain = append(r.Explain, "R-TABONLY: each table-driven lookup returns only values taken from its table (or the documented default / its own argument): LookupScript, the class lookups, LookupMirrorChar, Decompose/Compose (tables or the Hangul helpers); NewLanguage's result is built only by appending canonMap entries.")
 	ruleTabOnly(p, r, tabOnlyCfg{pkg: "language", fn: "LookupScript", table: []string{"ScriptRanges"}, constants: []string{"Unknown"}})
-	ruleTabOnly(p, r, tabOnlyCfg{pkg: "unicodedata", fn: "LookupLineBreakClass", table: []string{"lineBreaks"}, constants: []string{"BreakXX"}})
-	ruleTabOnly(p, r, tabOnlyCfg{pkg: "unicodedata", fn: "LookupGraphemeBreakClass", table: []string{"graphemeBreaks"}, zero: true})
-	ruleTabOnly(p, r, tabOnlyCfg{pkg: "unicodedata", fn: "LookupWordBreakClass", table: []string{"wordBreaks"}, zero: true})
-	ruleTabOnly(p, r, tabOnlyCfg{pkg: "unicodedata", fn: "LookupType", table: []string{"categories"}, zero: true})
+	ruleTabOnly(p, r, tabOnlyCfg{pkg: "unicodedata", fn: "LookupLineBreakClass", table: []string{"lineBreaks"}, constants: []string{"BreakXX"}, noRuneCmp: true})
+	ruleTabOnly(p, r, tabOnlyCfg{pkg: "unicodedata", fn: "LookupGraphemeBreakClass", table: []string{"graphemeBreaks"}, zero: true, noRuneCmp: true})
+	ruleTabOnly(p, r, tabOnlyCfg{pkg: "unicodedata", fn: "LookupWordBreakClass", table: []string{"wordBreaks"}, zero: true, noRuneCmp: true})
+	ruleTabOnly(p, r, tabOnlyCfg{pkg: "unicodedata", fn: "LookupType", table: []string{"categories"}, zero: true, noRuneCmp: true})
 	ruleTabOnly(p, r, tabOnlyCfg{pkg: "unicodedata", fn: "LookupMirrorChar", table: []string{"mirroring"}, params: true})
 	ruleTabOnly(p, r, tabOnlyCfg{pkg: "unicodedata", fn: "Decompose", table: []string{"decompose1", "decompose2"}, params: true, zero: true, viaFuncs: []fnRef{{"unicodedata", "", "decomposeHangul"}}})
 	ruleTabOnly(p, r, tabOnlyCfg{pkg: "unicodedata", fn: "Compose", table: []string{"compose"}, viaFuncs: []fnRef{{"unicodedata", "", "composeHangul"}}})
